@@ -258,6 +258,7 @@ func cliPart(r *mon.Run) {
 	skipPart(r, e)
 	mixedPart(r, e)
 	commentPart(r, e)
+	xlPart(r, e)
 	if r.Counter("cli_runs") < 300 {
 		r.Inconclusive("CLI part ran only %d processes", r.Counter("cli_runs"))
 	}
